@@ -181,7 +181,6 @@ package common
 //@ func (s DefaultGridSampler) SampleGridWithTransform(image *gozxing.BitMatrix, dimensionX int, dimensionY int, transform *PerspectiveTransform) (r *gozxing.BitMatrix, e error)
 //@   property C19
 //@   opt realarith=uf
-//@   opt tier=thorough
 //@   requires image != nil && gozxing.wfBM(image) && transform != nil && dimensionX <= 100000000
 //@   requires forall cx int, cy int :: 0 <= cx && cx < dimensionX && 0 <= cy && cy < dimensionY ==> -1000000000.0 < trX(transform, cx, cy) && trX(transform, cx, cy) < 1000000000.0 && -1000000000.0 < trY(transform, cx, cy) && trY(transform, cx, cy) < 1000000000.0
 //@   ensures (dimensionX <= 0 || dimensionY <= 0) ==> e != nil
